@@ -1,3 +1,6 @@
+#[cfg(weechess_verif_loom)]
+use crate::verif_sync::{mpsc, thread, Arc, AtomicBool, HashMap, Ordering, RwLock};
+#[cfg(not(weechess_verif_loom))]
 use std::{
     collections::HashMap,
     sync::{
@@ -16,7 +19,14 @@ use weechess_core::{
 
 use crate::eval::{self, Evaluation};
 
+#[cfg(weechess_verif_loom)]
+use crate::verif_sync::rayon_prelude::*;
+#[cfg(not(weechess_verif_loom))]
 use rayon::prelude::*;
+
+#[cfg(weechess_verif)]
+#[path = "searcher/verif.rs"]
+pub mod verif;
 
 const DEFAULT_TRANSPOSITION_TABLE_SIZE_MB: usize = 1024;
 
@@ -134,6 +144,9 @@ impl Searcher {
     {
         let max_depth = max_depth.unwrap_or(usize::MAX);
         let mut rng = rng;
+
+        #[cfg(weechess_verif)]
+        let previous_artifact = previous_artifact.or_else(|| verif::default_artifact(&mut rng));
 
         let (hasher, transpositions, mut state_history) = previous_artifact
             .map(|a| (a.hasher, a.transpositions, a.state_history))
@@ -347,6 +360,11 @@ impl Searcher {
     ) -> Result<eval::Evaluation, SearchInterrupt> {
         // We're searching a new node here
         *nodes_searched += 1;
+
+        #[cfg(weechess_verif)]
+        if verif::on_node(token, *nodes_searched) {
+            return Err(SearchInterrupt);
+        }
 
         // To avoid spending a lot of time waiting for atomic operations,
         // let's avoid checking the cancellation token in the lower leaf nodes
@@ -904,12 +922,16 @@ pub struct SearchArtifact {
 #[derive(Clone)]
 struct CancellationToken {
     cancelled: Arc<AtomicBool>,
+    #[cfg(weechess_verif)]
+    verif_plan: Option<std::sync::Arc<verif::Plan>>,
 }
 
 impl CancellationToken {
     fn new() -> (Self, Self) {
         let token = Self {
             cancelled: Arc::new(AtomicBool::new(false)),
+            #[cfg(weechess_verif)]
+            verif_plan: None,
         };
 
         (token.clone(), token)
